@@ -892,7 +892,7 @@ func main() {
 	}
 
 	// ---- listings
-	for i := 0; i < 500*scale; i++ {
+	for i := 0; i < 200*scale; i++ {
 		init := uint64(rng.Intn(3)) * 100
 		seg := uint64([]int{10, 100, 1000, 7}[rng.Intn(4)])
 		var names []string
@@ -962,11 +962,11 @@ func main() {
 	}
 
 	// ---- save / load round trips
-	nRT := 700 * scale
+	nRT := 350 * scale
 	for i := 0; i < nRT; i++ {
 		n := 0
 		switch {
-		case i%350 == 349:
+		case i%175 == 174:
 			n = rng.Range(1000, 2000)
 			if th {
 				n = rng.Range(2000, 6000)
